@@ -483,6 +483,12 @@ func (fr *Frame) binop(i *ssa.BinOp, cond T) Val {
 			}
 		}
 	}
+	// x | y with no overlapping bits (byte assembly such as uint32(b[0])<<8 | uint32(b[1])) is x + y exactly
+	if i.Op == token.OR {
+		if tzBits(i.X, 0) >= ubBits(i.Y, 0) || tzBits(i.Y, 0) >= ubBits(i.X, 0) {
+			return vc.name("or", Add(x, y))
+		}
+	}
 	// uninterpreted bit operations
 	fn := ""
 	switch i.Op {
@@ -517,6 +523,66 @@ func (fr *Frame) binop(i *ssa.BinOp, cond T) Val {
 		return r
 	}
 	return vc.freshVal(i.Type(), "binop")
+}
+
+// tzBits: a lower bound on the number of trailing zero bits of v, read off its SSA definition.
+func tzBits(v ssa.Value, depth int) int {
+	if depth > 8 {
+		return 0
+	}
+	if b, ok := v.(*ssa.BinOp); ok {
+		switch b.Op {
+		case token.SHL:
+			if c, ok := constInt(b.Y); ok && c >= 0 && c < 64 {
+				return int(c) + tzBits(b.X, depth+1)
+			}
+		case token.OR:
+			l, r := tzBits(b.X, depth+1), tzBits(b.Y, depth+1)
+			if r < l {
+				return r
+			}
+			return l
+		}
+	}
+	return 0
+}
+
+// ubBits: an upper bound n such that 0 <= v < 2^n (64 when nothing is known), read off its SSA
+// definition: zero-extension of an unsigned value, constant left shifts and ors of such values.
+func ubBits(v ssa.Value, depth int) int {
+	if depth > 8 {
+		return 64
+	}
+	switch b := v.(type) {
+	case *ssa.Convert:
+		if bits, signed, ok := intBits(b.X.Type()); ok && !signed {
+			if rb, rsigned, ok2 := intBits(b.Type()); ok2 && (rb > bits || (rb == bits && !rsigned)) {
+				return bits
+			}
+		}
+	case *ssa.BinOp:
+		rb, _, ok := intBits(b.Type())
+		if !ok {
+			return 64
+		}
+		switch b.Op {
+		case token.SHL:
+			if c, ok := constInt(b.Y); ok && c >= 0 && c < 64 {
+				if n := ubBits(b.X, depth+1) + int(c); n < rb {
+					return n
+				}
+			}
+		case token.OR:
+			l, r := ubBits(b.X, depth+1), ubBits(b.Y, depth+1)
+			if r > l {
+				l = r
+			}
+			if l < rb {
+				return l
+			}
+		}
+	}
+	return 64
 }
 
 func isPow2(n int64) bool { return n > 0 && n&(n-1) == 0 }
